@@ -41,14 +41,14 @@ var c20RaceFuncs = []string{
 // c20Env is one store with a pool of pre-built commits, shared by a batch of histories (each history uses its own
 // dataset names, so histories are independent of each other in the model).
 type c20Env struct {
-	kind  string
-	dir   string
-	dbs   []*realDB
-	pool  *builtDAG
-	facts *c20Facts
-	uniq  atomic.Int64
-	tokMu sync.Mutex
-	tokOf map[hash.Hash]string
+	kind   string
+	dir    string
+	dbs    []*realDB
+	pool   *builtDAG
+	facts  *c20Facts
+	uniq   atomic.Int64
+	tokMu  sync.Mutex
+	tokOf  map[hash.Hash]string
 	addrOf map[string]hash.Hash
 }
 
